@@ -9,7 +9,7 @@ use super::c05::push_viol;
 use super::common::{Case, Plan, run_cases};
 use crate::Args;
 use crate::apps::{BindAnswer, EndPlan, Ev, Obs, Op, SideCfg, World, dgram, opts};
-use crate::bytepipe::{BytePipe, UNBOUNDED_BYTES};
+use crate::bytepipe::{BytePipe, UNBOUNDED_BYTES, scan_frames};
 use crate::explore::{Cost, RunOutput, choose};
 use crate::report::Report;
 use crate::sim::{Fnv, Step};
@@ -80,35 +80,6 @@ struct Cfg {
 /// The peer that ends the connection in a two-fault case (the other endpoint receives the Close).
 fn peer_of(f: Fault) -> usize {
     usize::from(!matches!(f, DropMuxA | BareCloseA))
-}
-
-/// WebSocket frames in the bytes written on a direction: (end offset of the first Close frame, the bytes end at a frame
-/// boundary). Only headers are looked at (the client role's payloads are masked).
-fn scan_frames(log: &[u8]) -> (Option<usize>, bool) {
-    let (mut i, mut close) = (0usize, None);
-    loop {
-        if i == log.len() {
-            return (close, true);
-        }
-        if i + 2 > log.len() {
-            return (close, false);
-        }
-        let (op, masked, l7) = (log[i] & 0x0f, log[i + 1] & 0x80 != 0, usize::from(log[i + 1] & 0x7f));
-        let (hdr, len) = match l7 {
-            126 if i + 4 <= log.len() => (4, usize::from(u16::from_be_bytes([log[i + 2], log[i + 3]]))),
-            127 if i + 10 <= log.len() => (10, u64::from_be_bytes(log[i + 2..i + 10].try_into().unwrap()) as usize),
-            126 | 127 => return (close, false),
-            n => (2, n),
-        };
-        let total = hdr + if masked { 4 } else { 0 } + len;
-        if i + total > log.len() {
-            return (close, false);
-        }
-        i += total;
-        if op == 8 && close.is_none() {
-            close = Some(i);
-        }
-    }
 }
 
 fn build(cfg: &Cfg) -> World {
